@@ -7,7 +7,7 @@ EXPLANATION = ("R1 path-sensitive extraction of the envelope decoder: on every s
                "test or by a checked conversion -, controls come from the trailing [0] constructed child; R2 every routing-map access and ID release in the driver's response arm is keyed by the ID decoded from that "
                "very response; R3 every reply send in that arm goes to the sender obtained by that lookup and carries only data of the "
                "same decoded message; R4 the protocolOp classification table equals RFC 4511 (4,25 -> Entry; 19 -> Referral; 5 -> Done, "
-               "only Done ends the search); R5 the unmatched branch neither sends nor mutates routing state; R6 registration keys/values "
+               "only Done ends the search); R5 on every path of the response arm a reply send, a registration or an ID release comes after a lookup of the decoded ID that found an operation (a message nobody waits for reaches nobody and changes nothing); R6 registration keys/values "
                "in the request arm; R7 the request tuple carries the allocated ID and the reply channel that is awaited; R8 only the driver "
                "loop and the constructor touch the routing maps; R9 a single task forwards items in decode order (no spawn, FIFO channel types).")
 TRUSTED = ['tokio mpsc/oneshot channels are FIFO and single-consumer', 'tokio_util Framed calls the decoder on the bytes in order']
@@ -249,19 +249,37 @@ def run(ctx):
             ctx.add('R4.entry', 'op %d' % v, loc(rbody), ok,
                     'protocolOp %d is forwarded as %s and ends the search: %s; RFC 4511 says %s, ends the search: %s' % (v, sorted(items), sorted(ends), exp, exp == 'SearchItem::Done'))
 
-    # R5 unmatched branch: statements of the response arm outside any successful lookup
+    # R5 a message nobody waits for is delivered to nobody and changes nothing.  A path rule over the enumerated paths of the response
+    # arm: wherever a path sends a reply, registers something in a routing map or touches the in-use set (a release), a lookup of the
+    # ID decoded from this very message has answered Some earlier on that path - an operation is registered under it.  Where the
+    # statement stands does not matter: inside the `Some` arm of the lookup, or after a `match` / `let .. else` / `if` whose `None`
+    # alternative left the arm by `continue` are the same paths.  (Which sender the reply goes to, and under which key the release
+    # is made, are R3.target-is-lookup-result and R2.release-is-decoded-id.)  Every such site of the arm must lie on an enumerated
+    # path, or in a branch the interpreter decided is never taken; otherwise it was not looked at and the rule fails closed.
+    r5_sites = {}
     for n, c in walk(rbody):
         if n['k'] == 'MethodCall' and (n['name'] in ('send', 'insert') or C.is_idset_place(n['recv'])):
             rt = hirq.strip_refs(n['recv'].get('ty', ''))
             if rt in (anchors.T_RESULT_SENDER, anchors.T_ITEM_SENDER, anchors.T_RESULTMAP, anchors.T_SEARCHMAP) or C.is_idset_place(n['recv']):
-                under = False
-                for cd in hirq.conditions(c):
-                    if cd[0] == 'if' and cd[2] == 'then' and cd[1]['cond']['k'] == 'LetExpr':
-                        init = cd[1]['cond']['init']
-                        if init.get('id') in lookups and hirq.pat_variant(cd[1]['cond']['pat']) == 'Some':
-                            under = True
-                ctx.add('R5.only-under-successful-lookup', n['name'], loc(n), under,
-                        'a send / registration / release happens in the response arm outside a successful lookup of the decoded ID')
+                r5_sites[id(n)] = (n, [])
+    r5_outs, r5_I = driver.arm_paths(C, 'response')
+    for o in r5_outs:
+        evs = [(i, node) for T in (anchors.T_RESULT_SENDER, anchors.T_ITEM_SENDER) for i, args, node in driver.sends(o, T)]
+        evs += [(i, node) for w in ('result', 'search') for i, name, args, node in driver.map_calls(C, o, w, ('insert',))]
+        evs += [(i, node) for i, name, args, node in driver.map_calls(C, o, 'idset')]
+        for i, node in evs:
+            if id(node) not in r5_sites:
+                r5_sites[id(node)] = (node, [])
+            r5_sites[id(node)][1].append(driver.found_before(C, o, i, driver.DECODED_ID))
+    ctx.floor('R5', 'reply sends / registrations / ID releases of the response arm', len(r5_sites), 3)
+    for n, verdicts in r5_sites.values():
+        if not verdicts:
+            ctx.add('R5.only-under-successful-lookup', n.get('name') or n['k'], loc(n), driver.never_taken(L, r5_I, n),
+                    'a send / registration / release in the response arm lies on no enumerated path of the arm: it was not analysed')
+            continue
+        ctx.add('R5.only-under-successful-lookup', n.get('name') or n['k'], loc(n), all(verdicts),
+                'a send / registration / release happens on a path of the response arm on which no lookup of the decoded ID has found a registered operation: '
+                'a message nobody waits for is delivered to somebody, or changes routing / ID state')
 
     # ------------------------------------------------------------------ R10 an abandoned operation is unrouted
     # (responses the server still sends under the abandoned ID are then unmatched and, by R5, delivered to nobody)
